@@ -169,10 +169,35 @@ def run_case(ctx, name, params):
         nb = r.randint(1, 6)
         designs = []
         total_expected = 0
+        # "forgetful" histories: designs of earlier batches are dropped by their owner (as a truncating population algorithm
+        # does), their memory is reused, and a later batch contains a NEW design that has the dead design's vector and sits at
+        # the dead design's address: it is a design like any other
+        forgetful = (not inject) and r.random() < 0.4
+        freed = {}
+        ghosts = []
         for b in range(nb):
             size = r.randint(1, 8)
             batch = []
-            for _ in range(size):
+            if freed:
+                import gc
+                gc.collect()
+                hold = []
+                for _k in range(4000):
+                    x_ = Individual([0.0] * n)
+                    if id(x_) in freed:
+                        x_.vector = list(freed.pop(id(x_)))
+                        batch.append(x_)
+                        parents.add(x_.id)
+                        designs.append({"ind": x_, "vector": [float(v) for v in x_.vector], "batch": b})
+                        ctx.count("designs_at_a_recycled_address_with_the_dead_designs_vector")
+                        if len(batch) >= 3 or not freed:
+                            break
+                    else:
+                        hold.append(x_)
+                del hold
+                freed.clear()
+                size = max(size, len(batch))
+            for _ in range(size - len(batch)):
                 if batch and not inject and r.random() < 0.12:
                     ind = Individual(list(r.choice(batch).vector))       # a replicated point: another design at the same vector
                     ctx.count("replicated_designs_in_a_batch")
@@ -189,7 +214,7 @@ def run_case(ctx, name, params):
             for dsg in designs[-size:]:
                 dsg["vector"] = [float(v) for v in dsg["ind"].vector]       # the vector that was finally stored (after retries)
             for dsg in designs:
-                dsg["mult"] = sum(1 for o in designs if o["vector"] == dsg["vector"])
+                dsg["mult"] = sum(1 for o in designs + ghosts if o["vector"] == dsg["vector"])
             total_expected += size * ((1 + 2 * n) if worst else (1 + n)) + sum(failed_once.get(i.id, 0) for i in batch)
             ctx.count("injected_parent_failures", sum(failed_once.get(i.id, 0) for i in batch))
             ctx.count("batches")
@@ -202,9 +227,19 @@ def run_case(ctx, name, params):
                               "%d objective calls after %d batches, expected %d" % (len(p.calls), b + 1, total_expected),
                               {"n": n, "m": m, "batches": b + 1})
                 return
+            if forgetful and b < nb - 1:
+                drop = set(r.sample(range(len(designs)), r.randint(1, len(designs))))
+                for k_ in drop:
+                    ghosts.append({"vector": designs[k_]["vector"]})
+                    freed[id(designs[k_]["ind"])] = designs[k_]["vector"]
+                designs = [d_ for k_, d_ in enumerate(designs) if k_ not in drop]
+                dsg = ind = d_ = None
+                del batch
         if nb >= 2:
             ctx.nontrivial((name, params["seed"]))
         ctx.count("cases")
+        if not designs:
+            return
         ctx.sample({"evaluator": "worst_case" if worst else "gradient", "n": n, "m": m, "batches": nb, "designs": len(designs),
                     "objective_calls": len(p.calls), "first_design": {"x": designs[0]["vector"], "costs": list(designs[0]["ind"].costs)}}, name)
     else:
